@@ -386,6 +386,16 @@ pub fn main(args: &[String]) {
                 rec.exercise(&mut rng, s, per_string, &kinds, &profiles);
             }
         }
+        "pairs" => {
+            // the corpus lines taken two at a time: compare(a, b) through every profile asked for
+            for ab in corpus.chunks(2) {
+                if ab.len() == 2 {
+                    for p in profiles.iter() {
+                        rec.call(&mut rng, p, "compare", &[ab[0].clone(), ab[1].clone()]);
+                    }
+                }
+            }
+        }
         "limits" => {
             // boundary counts of repeated characters (stream-safe limit 30, small buffers, ...) in strings that
             // are NOT already normalized, so that no fast path hides the normalizer
